@@ -1,0 +1,28 @@
+// +build verif
+
+package cluster
+
+// Verification-only exports (build tag "verif"). An out-of-package in-memory
+// register must be able to stamp the modification epoch on the values it
+// hands out, exactly like the etcd register does with ModifiedIndex, in order
+// to implement the compare-and-swap contract of PDRegister.
+
+// VerifSetEpoch sets the unexported replica-info epoch.
+func (self *PartitionReplicaInfo) VerifSetEpoch(e EpochType) {
+	self.epoch = e
+}
+
+// VerifSetMetaEpoch sets the unexported namespace meta epoch.
+func (self *NamespaceMetaInfo) VerifSetMetaEpoch(e EpochType) {
+	self.metaEpoch = e
+}
+
+// VerifSetEpoch sets the unexported node-info epoch.
+func (self *NodeInfo) VerifSetEpoch(e EpochType) {
+	self.epoch = e
+}
+
+// VerifSetRealLeader sets the unexported current leader of a partition info.
+func (self *PartitionMetaInfo) VerifSetRealLeader(leader string, e EpochType) {
+	self.currentLeader = RealLeader{Leader: leader, epoch: e}
+}
